@@ -384,4 +384,32 @@ theorem legacy_core_eq_spec (H : Bytes → Bytes) (sc : Bytes) (ht : UInt32) (tx
       rw [hm]
 
 
+/-- when the nil variant does not panic, the digest does not read the midstate at all -/
+theorem wit_nil_unread (H : Bytes → Bytes) (sub : Bytes) (sh : SigHashes) (ht : UInt32) (tx : Tx)
+    (idx : Nat) (amt : UInt64)
+    (h : ¬ ((ht &&& 0x80) = 0 ∨ ((ht &&& 0x1f) ≠ 3 ∧ (ht &&& 0x1f) ≠ 2))) :
+    calcWitnessSignatureHashRawNil H sub ht tx idx amt =
+      calcWitnessSignatureHashRaw H sub sh ht tx idx amt := by
+  unfold calcWitnessSignatureHashRawNil calcWitnessSignatureHashRaw
+  have h1 : ¬ (ht &&& 0x80) = 0 := fun e => h (Or.inl e)
+  have h2 : ¬ ((ht &&& 0x1f) ≠ 3 ∧ (ht &&& 0x1f) ≠ 2) := fun e => h (Or.inr e)
+  cases hi : tx.ins[idx]? with
+  | none => rfl
+  | some inp => simp [h, h1, h2]
+
+theorem tap_nil_unread (H : Bytes → Bytes) (sh : SigHashes) (ht : UInt32) (tx : Tx)
+    (idx : Nat) (fetch : OutPoint → TxOut) (o : TaprootSigHashOptions)
+    (h : ¬ ((ht &&& 0x80) ≠ 0x80 ∨ ((ht &&& 3) ≠ 3 ∧ (ht &&& 3) ≠ 2))) :
+    calcTaprootSignatureHashRawNil H ht tx idx fetch o =
+      calcTaprootSignatureHashRaw H sh ht tx idx fetch o := by
+  unfold calcTaprootSignatureHashRawNil calcTaprootSignatureHashRaw
+  have h1 : ¬ (ht &&& 0x80) ≠ 0x80 := fun e => h (Or.inl e)
+  have h2 : ¬ ((ht &&& 3) ≠ 3 ∧ (ht &&& 3) ≠ 2) := fun e => h (Or.inr e)
+  cases hv : isValidTaprootSigHash ht
+  · simp
+  · cases hi : tx.ins[idx]? with
+    | none => simp
+    | some inp => simp [h, h1, h2]
+
+
 end BV.C07.Lemmas
